@@ -232,6 +232,21 @@ CHECKS = {
   note='trusted: Install.tla default chain (prefix -> exec_prefix -> bindir ...), the convention that a run-time '
        'dependency is staged at libdir + its build-relative path, real doppel/patchelf/gcc',
   design='5/C15'),
+ 'C16': dict(
+  technique='TLA+ effect predicates per semantic option over a probe record and an incompatibility relation '
+            '(Options.tla); TLC enumerates the option x value x placement space, singles and pairs '
+            '(Options_Gen.tla); one real project per case built with the detected gcc/g++, probe output and '
+            'readelf facts validated by TLC (Options_Trace.tla)',
+  text='Every (option, value, placement) slot for C and C++ and a sample (thorough: up to 2500) of unordered pairs is '
+       'built with the real compiler; TLC requires configure, compile, link and run to succeed and every option of '
+       'the case to have its documented effect on the measured facts (macro value, language standard, include found, '
+       'system include incl. a compiler-default directory, warnings / warnings-as-errors, debug section, '
+       '__OPTIMIZE__ / __OPTIMIZE_SIZE__ / LTO section, PIC, _REENTRANT, ASan, static linking, external library '
+       'resolved, precompiled header applied, flags from CFLAGS and from a toolchain file). The TLA+ content is '
+       'thin by nature (a covering space and predicates); the truth is the real compiler\'s.',
+  note='trusted: the probe program and readelf parsing in harness/checks/c16.py, gcc 12 of the sandbox; entry_point, '
+       'rpath and Windows/macOS options are not probed',
+  design='5/C16'),
 }
 
 NOT_YET = {}
